@@ -30,14 +30,15 @@ const tlDeadline = 8 * time.Second // generous watchdog: only enabledness-style 
 // ---- instrumentation of one lane --------------------------------------------------------------
 
 type tlRun struct {
-	mu         sync.Mutex
-	starts     map[int]int
-	finished   map[int]bool
-	running    int
-	maxRunning int
-	waitDone   bool
-	afterWait  []int
-	panicked   []any // panic values that were actually raised
+	mu            sync.Mutex
+	starts        map[int]int
+	finished      map[int]bool
+	running       int
+	maxRunning    int
+	waitDone      bool
+	runningAtWait int
+	afterWait     []int
+	panicked      []any // panic values that were actually raised
 }
 
 func newTLRun() *tlRun { return &tlRun{starts: map[int]int{}, finished: map[int]bool{}} }
@@ -129,6 +130,7 @@ func waitLane(tl *tasklane.TaskLane, r *tlRun) bool {
 		tl.Wait()
 		r.mu.Lock()
 		r.waitDone = true
+		r.runningAtWait = r.running // tasks inside Start() at the moment Wait() returned: must be none
 		r.mu.Unlock()
 		close(done)
 	}()
@@ -212,6 +214,12 @@ func tlFinalChecks(s *Stream, sc tlScenario, tl *tasklane.TaskLane, r *tlRun, pu
 		_, dump := laneGoroutinesGone()
 		s.Violate("wait-does-not-return", "Wait() did not return within the watchdog after cancel with no task running", map[string]any{"scenario": sc, "goroutines": dump})
 		return
+	}
+	r.mu.Lock()
+	raw := r.runningAtWait
+	r.mu.Unlock()
+	if raw > 0 {
+		s.Violate("wait-returned-early", fmt.Sprintf("Wait() returned while %d started task(s) had not returned yet", raw), sc)
 	}
 	// a PushTask that begins after cancel returns the context error and its task never starts
 	late := &tlTask{id: -1, r: r}
@@ -551,6 +559,37 @@ func tlPinned(s *Stream, rng *Rng, L, Q, nPinned int) {
 	}
 	close(release)
 	waitUntil(tlDeadline, func() bool { _, fin, _, _ := r.snapshot(); return fin == m+nPinned })
+	if !tlEnough(s) && rng.Intn(2) == 0 {
+		// the same lane once more (it now has a history of shared hand-overs): other workers pinned this time,
+		// short tasks to another lane
+		release2 := make(chan struct{})
+		for i := 0; i < nPinned; i++ {
+			lane := (target + 1 + i) % L
+			t := &tlTask{id: 19000 + i, r: r, block: release2}
+			pushes = append(pushes, tlPush{t.id, lane, tl.PushTask(t, lane)})
+		}
+		waitUntil(tlDeadline, func() bool { return r.isStarted(19000 + nPinned - 1) })
+		target2 := (target + 1) % L
+		m2 := 2 + rng.Intn(2*(Q+1))
+		for i := 0; i < m2; i++ {
+			t := &tlTask{id: 20000 + i, r: r}
+			pushes = append(pushes, tlPush{t.id, target2, tl.PushTask(t, target2)})
+		}
+		ok2 := waitUntil(tlDeadline, func() bool {
+			starts, _, _, _ := r.snapshot()
+			for i := 0; i < m2; i++ {
+				if starts[20000+i] == 0 {
+					return false
+				}
+			}
+			return true
+		})
+		if !ok2 {
+			s.Violate("head-of-line-blocking", fmt.Sprintf("second phase on the same lane: %d short tasks pushed to lane %d did not all start while %d of %d workers were idle (first phase: %s)", m2, target2, L-nPinned, L, sc.Detail), sc)
+		}
+		close(release2)
+		waitUntil(tlDeadline, func() bool { return r.runningNow() == 0 && tl.Status().PendingTask == 0 })
+	}
 	cancel()
 	tlFinalChecks(s, sc, tl, r, pushes, ctx)
 	s.Evaluations++
@@ -933,6 +972,68 @@ func tlLongHold(s *Stream, L, Q int, hold time.Duration) {
 	tlFinalChecks(s, sc, tl, r, pushes, ctx)
 	s.Evaluations++
 	s.Nontrivial(fmt.Sprintf("long-hold/%d/%d/%v", L, Q, hold))
+}
+
+// ---- scenario: tasks of unusual dynamic types (C06) ----------------------------------------------------------
+
+// a task is whatever has a Start method: a func adapter, a struct value holding a slice (neither can be a map
+// key), a value that carries its own - already finished - context. The lane only ever calls Start.
+type tlFuncTask func()
+
+func (f tlFuncTask) Start() { f() }
+
+type tlBatchTask struct {
+	ids  []int
+	hits *atomic.Int32
+}
+
+func (b tlBatchTask) Start() { b.hits.Add(int32(len(b.ids))) }
+
+type tlCtxTask struct {
+	context.Context
+	hits *atomic.Int32
+}
+
+func (c tlCtxTask) Start() { c.hits.Add(1) }
+
+func tlOddTaskTypes(s *Stream, rng *Rng, L, Q int) {
+	sc := tlScenario{Kind: "odd-task-types", L: L, Q: Q, Seed: rng.s}
+	ctx, cancel := context.WithCancel(context.Background())
+	defer cancel()
+	tl := tasklane.New(ctx, L, Q)
+	tl.SetTimeout(tlDeadline)
+	dead, kill := context.WithCancel(context.Background())
+	kill()
+	var funcs, batch, own atomic.Int32
+	wantFuncs, wantBatch, wantOwn := 0, 0, 0
+	for i := 0; i < 12; i++ {
+		lane := rng.Intn(L)
+		switch i % 3 {
+		case 0:
+			if tl.PushTask(tlFuncTask(func() { funcs.Add(1) }), lane) == nil {
+				wantFuncs++
+			}
+		case 1:
+			if tl.PushTask(tlBatchTask{ids: []int{i, i + 1, i + 2}, hits: &batch}, lane) == nil {
+				wantBatch += 3
+			}
+		default:
+			if tl.PushTask(tlCtxTask{Context: dead, hits: &own}, lane) == nil {
+				wantOwn++
+			}
+		}
+	}
+	ok := waitUntil(tlDeadline, func() bool {
+		return int(funcs.Load()) == wantFuncs && int(batch.Load()) == wantBatch && int(own.Load()) == wantOwn
+	})
+	if !ok {
+		sc.Detail = fmt.Sprintf("accepted: %d func tasks, %d slice-holding struct tasks, %d tasks carrying a finished context of their own; started: %d, %d, %d", wantFuncs, wantBatch/3, wantOwn, funcs.Load(), batch.Load()/3, own.Load())
+		s.Violate("accepted-task-not-started", "tasks of unusual dynamic types were accepted but not all started exactly once: "+sc.Detail, sc)
+	}
+	cancel()
+	tl.Wait()
+	s.Evaluations++
+	s.Nontrivial(fmt.Sprintf("odd-task-types/%d/%d", L, Q))
 }
 
 // ---- scenario: a lane with a long life (C06) -------------------------------------------------------------
@@ -1595,6 +1696,9 @@ func runTL(cfg Cfg, name string) {
 		}
 		tlLongHold(s, 2, 1, 1300*time.Millisecond)
 		tlIdleThenPush(s, 2, 1, 2200*time.Millisecond)
+		for L := 1; L <= 3; L++ {
+			tlOddTaskTypes(s, rng.Fork(), L, L%2)
+		}
 		tlLongLife(s, rng.Fork(), 1, 2, 1, cfg.N(40000, 150000))
 		tlLongLife(s, rng.Fork(), 4, 1, 4, cfg.N(30000, 150000))
 		if cfg.Thorough() {
@@ -1619,6 +1723,10 @@ func runTL(cfg Cfg, name string) {
 					tlPanicAfterCancel(s, rng.Fork(), L, Q)
 				}
 			}
+		}
+		// "its worker keeps serving": after dozens of recovered panics the next task starts as promptly as ever
+		for L := 2; L <= 3 && !tlEnough(s); L++ {
+			tlAfterPanics(s, rng.Fork(), L)
 		}
 	case "tl_share":
 		s.Rule = "for laneSize 2..4, queueSize 0..3 and every number 1..laneSize-1 of pinned workers: short tasks all pushed to one lane must complete while the pinned workers stay blocked; all workers busy with a short task at the head of every lane, then one worker freed: every head completes; a long task with short ones behind it in one lane, two workers freed one after the other; a task pushed after 1..16 recovered panics starts within 3 s; max concurrency <= laneSize on every run; non-trivial = distinct (L,Q,pinned,target lane,tasks)"
